@@ -570,6 +570,9 @@ def check(fx, rep, tier):
     from ..core import Retag
 
     check_r184(fx, Retag(rep, "R06.2"))
+    from .c18 import check_leaf_survives
+
+    check_leaf_survives(fx, rep, "R06.2")
     # a literal key that travels through memory reaches SLOAD / SSTORE intact only if memory operations touch the words the EVM
     # touches: operand roles and copy extents of the memory / storage model (C07 R07.2 effect:* / copy-loop:*)
     from .. import core as _core6
